@@ -84,6 +84,9 @@ func runOne(t *testing.T, prof *Profile, cfg *RunConfig, tape *rt.Tape, trace bo
 	defer wd.Stop()
 	var run *Run
 	var execErr error
+	// one process runs many seeds: no hook of an earlier run may be alive in this one (a hook that takes a
+	// lock adds scheduling points, and a run must not depend on what ran before it in the process)
+	resetSimHooks()
 	perr, stack := inBubble(t, func() {
 		run = newRun(cfg, tape, trace)
 		rt.SetCur(run.rt)
